@@ -285,9 +285,9 @@ def wspec(entry, replayable=True, **params):
 PROPS['C16'] = dict(
     level=MC,
     quick=[wspec('H_maporder', replayable=False, permute_maps=1, imports=3, anon=2, values=2), wspec('H_unvendor', len=16), wspec('H_iswire', len=12), gen_h('H_generate')],
-    thorough=[wspec('H_maporder', replayable=False, permute_maps=1, imports=4, anon=3, values=3), wspec('H_unvendor', len=22), wspec('H_iswire', len=18), gen_h('H_generate')],
+    thorough=[wspec('H_maporder', replayable=False, permute_maps=1, imports=4, anon=2, values=2), wspec('H_unvendor', len=22), wspec('H_iswire', len=18), gen_h('H_generate')],
     covers={'H_maporder': ['framed'], 'H_unvendor': ['unvendor'], 'H_iswire': ['iswire'], 'H_generate': ['content']},
-    bounds_text='gen.frame / nameInFileScope under every iteration order of the import, anonymous-import and value tables (<=3/2/2 entries quick, 4/3/3 thorough; the engine permutes map iteration by a solver-visible choice); qualifyImport / isWireImport for every import path of 16 (22) bytes over the alphabet {v,e,n,d,o,r,/,x}; Generate\'s framed content contains no absolute path',
+    bounds_text='gen.frame / nameInFileScope under every iteration order of the import, anonymous-import and value tables (<=3/2/2 entries quick, 4/2/2 thorough; the engine permutes map iteration by a solver-visible choice); qualifyImport / isWireImport for every import path of 16 (22) bytes over the alphabet {v,e,n,d,o,r,/,x}; Generate\'s framed content contains no absolute path',
     outside='NOT CLAIMED: independence of module vs GOPATH vs vendor resolution, checkout location, invocation directory/pattern and co-processed packages — that is go list / go/packages behaviour which cannot be encoded; only the un-vendoring of paths and the absence of absolute paths in the frame are covered',
     assumptions=COMMON_ASSUME + ['map iteration order is the only source of nondeterminism inside Wire (no time, randomness or environment reads in internal/wire besides go/packages)'],
 )
